@@ -46,6 +46,12 @@ def concrete_sequence(eng, st, v):
         return list(st.cl[v.id])
     if isinstance(v, VCSeq):
         return list(v.items)
+    if isinstance(v, VList) and st.ghost.get("dyn"):
+        # heap list of a concretely built object graph: concrete length and elements
+        n = z3.simplify(z3.Select(st.lenmap(), v.ref))
+        if z3.is_int_value(n) and 0 <= n.as_long() <= 64:
+            arr = z3.Select(st.eltmap(sort_of(v.elem)), v.ref)
+            return [eng.wrap(st, z3.simplify(z3.Select(arr, k)), v.elem) for k in range(n.as_long())]
     return None
 
 
